@@ -261,3 +261,16 @@ Theorem C01_refuted_idempotent_config_rewritten :
   /\ mount_targets (syscalls (v_log v_e2)) = [bs "/b/layers/d1/build/mnt"].
 Proof. exact C01_idempotent_refuted_config_rewritten. Qed.
 Print Assumptions C01_refuted_idempotent_config_rewritten.
+
+(* ---- the regenerated constants this property's predicate / model rest on, against literals.
+   Gen/Consts.v is rewritten from the source of /repo on every run, so without this theorem an
+   edit of one of these constants would move model, predicate and code together and nothing
+   would be reported.  Used by: the predicate C01.spec / C01.kf read layers from disk through Model/Layers.v (layerconfig_path).
+   "frozen" = no manual text gives the value; it is the value of the reviewed tree. *)
+From LC Require Import Gen.Consts Proofs.C01PinsP.
+Local Open Scope string_scope.
+Theorem C01_constants_pinned :
+  (* doc/layercake_directories.adoc, manual page LAYER DIRECTORY: "layerconfig" *)
+  D_LayerconfigFile = bs "layerconfig".
+Proof. exact c01_constants_pinned. Qed.
+Print Assumptions C01_constants_pinned.
